@@ -7,10 +7,11 @@
 // (kind name payload) with interned names.
 //
 // Record: 1 model conds stored requests typeNames relNames idNames
-//   request = (qkind ot oi r ctxTuples outcome)   qkind 0 = object#relation, 1 = empty, 2 = malformed
-//   outcome = (0 tree) | (1 errclass)
-//   tree    = (0 name ((subject rawuser) ...)) | (1 name userset) | (2 name tupleset ((k t id r) ...))
-//           | (3 name (kids)) | (4 name (kids)) | (5 name base sub) | (9)
+//
+//	request = (qkind ot oi r ctxTuples outcome)   qkind 0 = object#relation, 1 = empty, 2 = malformed
+//	outcome = (0 tree) | (1 errclass)
+//	tree    = (0 name ((subject rawuser) ...)) | (1 name userset) | (2 name tupleset ((k t id r) ...))
+//	        | (3 name (kids)) | (4 name (kids)) | (5 name base sub) | (9)
 package main
 
 import (
@@ -18,6 +19,7 @@ import (
 	"context"
 	"encoding/json"
 	"errors"
+	"fmt"
 	"os"
 	"strings"
 
@@ -28,7 +30,9 @@ import (
 	"github.com/openfga/openfga/internal/validation"
 	"github.com/openfga/openfga/internal/verifharness/lib/rec"
 	"github.com/openfga/openfga/internal/verifharness/lib/scen"
+	"github.com/openfga/openfga/pkg/server"
 	"github.com/openfga/openfga/pkg/server/commands"
+	"github.com/openfga/openfga/pkg/storage"
 	"github.com/openfga/openfga/pkg/storage/memory"
 	"github.com/openfga/openfga/pkg/typesystem"
 )
@@ -46,6 +50,7 @@ type caseDesc struct {
 	Ghost    bool           `json:"ghost,omitempty"` // model built without the validator (undefined tupleset)
 	Stored   []scen.Tuple   `json:"stored"`
 	Reqs     []reqDesc      `json:"reqs"`
+	Seq      []reqDesc      `json:"seq,omitempty"` // request sequence sent through server.Server.Expand
 	Text     string         `json:"text,omitempty"`
 }
 
@@ -244,8 +249,104 @@ func plan(ctx context.Context, w *rec.Writer, r *rec.Rand, s *scen.Scenario) *ca
 		b.Ctx = mkCtx(someObj)
 		d.Reqs = append(d.Reqs, b)
 	}
+	// request sequences through the real server (one long-lived server for the whole run): an
+	// Expand with contextual tuples, then the same object#relation without them / with others
+	if !d.Ghost {
+		var withCtx []reqDesc
+		for _, q := range d.Reqs {
+			if len(q.Ctx) > 0 && q.Obj != "" && q.Rel != "" && !isMalformed(q.Obj, q.Rel) {
+				withCtx = append(withCtx, q)
+			}
+		}
+		for i := 0; i < 2 && len(withCtx) > 0; i++ {
+			q := rec.Pick(r, withCtx)
+			d.Seq = append(d.Seq, q, reqDesc{Obj: q.Obj, Rel: q.Rel})
+			if len(q.Ctx) > 1 && r.Bool() {
+				d.Seq = append(d.Seq, reqDesc{Obj: q.Obj, Rel: q.Rel, Ctx: q.Ctx[:1]})
+			}
+		}
+		if len(d.Seq) == 0 && len(d.Reqs) > 0 {
+			q := d.Reqs[0]
+			if q.Obj != "" && q.Rel != "" && !isMalformed(q.Obj, q.Rel) {
+				d.Seq = append(d.Seq, reqDesc{Obj: q.Obj, Rel: q.Rel})
+			}
+		}
+	}
 	d.Text = s.String()
 	return d
+}
+
+// ---------------------------------------------------------------------------------------------
+// sequences through server.Server.Expand: every answer must be the answer of a fresh
+// commands.ExpandQuery for the same single request
+
+type harness struct {
+	ds       storage.OpenFGADatastore
+	srv      *server.Server
+	prevID   string
+	prevTS   *typesystem.TypeSystem
+	prevScen *scen.Scenario
+}
+
+func ctxKeys(ts []scen.Tuple) *openfgav1.ContextualTupleKeys {
+	if len(ts) == 0 {
+		return nil
+	}
+	ct := &openfgav1.ContextualTupleKeys{}
+	for _, t := range ts {
+		ct.TupleKeys = append(ct.TupleKeys, t.Proto())
+	}
+	return ct
+}
+
+func outcomeV(w *rec.Writer, in *scen.Intern, resp *openfgav1.ExpandResponse, err error) rec.V {
+	if err != nil {
+		return rec.L(rec.I(1), rec.I(classify(err)))
+	}
+	return rec.L(rec.I(0), encTree(w, in, resp.GetTree().GetRoot()))
+}
+
+// seqStep compares the server's answer with the command layer's for one request.
+func (h *harness) seqStep(ctx context.Context, w *rec.Writer, d *caseDesc, storeID string, ts *typesystem.TypeSystem, q reqDesc, where string) {
+	in := scen.NewIntern()
+	req := func() *openfgav1.ExpandRequest {
+		return &openfgav1.ExpandRequest{StoreId: storeID,
+			TupleKey:         &openfgav1.ExpandRequestTupleKey{Object: q.Obj, Relation: q.Rel},
+			ContextualTuples: ctxKeys(q.Ctx)}
+	}
+	cresp, cerr := commands.NewExpandQuery(h.ds).Execute(typesystem.ContextWithTypesystem(ctx, ts), req())
+	sresp, serr := h.srv.Expand(ctx, req())
+	cv := outcomeV(w, in, cresp, cerr)
+	sv := outcomeV(w, in, sresp, serr)
+	w.Stat("server_sequence_expands", 1)
+	if len(q.Ctx) > 0 {
+		w.Stat("server_sequence_expands_with_ctx", 1)
+	}
+	if cv != sv {
+		w.PropFail(fmt.Sprintf("Expand answer depends on earlier requests: server.Expand(%s#%s, %d contextual tuples, %s) differs from the single-request answer of the command layer", q.Obj, q.Rel, len(q.Ctx), where), d)
+	}
+}
+
+func (h *harness) sequence(ctx context.Context, w *rec.Writer, d *caseDesc, storeID string, ts *typesystem.TypeSystem) {
+	for _, q := range d.Seq {
+		h.seqStep(ctx, w, d, storeID, ts, q, "same store")
+	}
+	// the same object#relation in the store of the previous scenario (when it defines it)
+	if h.prevTS != nil {
+		seen := map[string]bool{}
+		for _, q := range d.Seq {
+			k := q.Obj + "#" + q.Rel
+			t, _ := scen.SplitObj(q.Obj)
+			if seen[k] || h.prevScen.Rel(t, q.Rel) == nil {
+				continue
+			}
+			seen[k] = true
+			h.seqStep(ctx, w, d, h.prevID, h.prevTS, reqDesc{Obj: q.Obj, Rel: q.Rel}, "another store")
+		}
+	}
+	if len(d.Seq) > 0 {
+		h.prevID, h.prevTS, h.prevScen = storeID, ts, d.Scenario
+	}
 }
 
 func splitName(name string) (string, string, string) {
@@ -336,15 +437,14 @@ func isMalformed(obj, rel string) bool {
 	return strings.ContainsAny(rel, "#:@ ")
 }
 
-func run(ctx context.Context, w *rec.Writer, d *caseDesc) {
+func (h *harness) run(ctx context.Context, w *rec.Writer, d *caseDesc) {
 	s := d.Scenario
 	m, ts, err := buildTS(ctx, s, d.Ghost)
 	if err != nil {
 		w.Stat("replay_model_rejected", 1)
 		return
 	}
-	ds := memory.New()
-	defer ds.Close()
+	ds := h.ds
 	storeID := ulid.Make().String()
 	if _, err := ds.CreateStore(ctx, &openfgav1.Store{Id: storeID, Name: "verif"}); err != nil {
 		panic(err)
@@ -422,6 +522,9 @@ func run(ctx context.Context, w *rec.Writer, d *caseDesc) {
 	}
 	w.Case(d, rec.I(1), model, conds, rec.L(stored...), rec.L(reqs...),
 		rec.LS(in.TypeNames), rec.LS(in.RelNames), rec.LS(in.IDNames))
+	if !d.Ghost {
+		h.sequence(ctx, w, d, storeID, ts)
+	}
 }
 
 func main() {
@@ -429,6 +532,9 @@ func main() {
 	w := rec.NewWriter(o.Out)
 	defer w.Close()
 	ctx := context.Background()
+	h := &harness{ds: memory.New()}
+	h.srv = server.MustNewServerWithOpts(server.WithDatastore(h.ds))
+	defer h.srv.Close()
 	if o.Replay != "" {
 		f, err := os.Open(o.Replay)
 		if err != nil {
@@ -442,7 +548,7 @@ func main() {
 			if json.Unmarshal(sc.Bytes(), &d) != nil || d.Scenario == nil {
 				continue
 			}
-			run(ctx, w, &d)
+			h.run(ctx, w, &d)
 		}
 		return
 	}
@@ -451,7 +557,7 @@ func main() {
 		rr := r.Fork()
 		s := scen.Generate(rr, scen.DefaultOpts())
 		if d := plan(ctx, w, rr, s); d != nil {
-			run(ctx, w, d)
+			h.run(ctx, w, d)
 		}
 	}
 }
